@@ -1,6 +1,7 @@
 import LabtechModel.Proofs.Ready
 import LabtechModel.Proofs.Plan
 import LabtechModel.Proofs.InvMain
+import LabtechModel.Proofs.Inv2Need
 /-!
 # C03 — Each distinct task runs at most once, and only if its result is needed
 
@@ -24,7 +25,19 @@ the master invariant of `Proofs/InvLoop.lean`):
   loaded from cache) carry pairwise distinct tasks: every equality class is executed or loaded at
   most once, never both (`no_second_execution` in explicit form); while the coordinator is running,
   every task with a worker record has been yielded, hence was submitted (`executed_was_yielded`).
-Not covered at whole-run level: that a `load` record appears exactly for the tasks cached beforehand.
+Load-or-execute and the planning closure (from `FlagInv` of `Proofs/Inv2Flag.lean` and
+`Proofs/Inv2Need.lean`; every problem, configuration, cache pre-state, fuel, schedule; failures allowed):
+* `use_cache_fixed_at_plan_time`: the `use_cache` flag of every `submit` is the one planning computed
+  from the cache pre-state (only a task's own execution writes its entry, and it is executed at most once);
+* `load_implies_cached`, `exec_implies_not_cached`, `worker_record_planned` (no hypothesis) and
+  `loaded_iff_cached_beforehand` (for runs that returned, planned tasks whose worker did not die): a
+  task is loaded iff it was cached beforehand and not busted, executed iff it was not;
+* `plan_is_needed_closure` (no hypothesis) / `needed_is_planned` (`Acyclic`, `InstOK`, `FuelOK`): the work
+  list is exactly the set of tasks of `NeededObj` objects — the requested objects closed under "objects
+  in the parameters of a needed object whose task is NOT cached beforehand";
+* `cached_deps_untouched`: a task none of whose objects is needed — in particular one reachable from
+  the requested tasks only through tasks cached beforehand — is not planned, never submitted, never
+  loaded, never executed, never yielded.
 -/
 namespace Lt.Props.C03
 open Lt
@@ -192,5 +205,154 @@ example :
     submittedOf (run invExCfg invExP [(1, 1000)] 4 (List.replicate 5 chooseAll)).trace = [1, 0, 2, 3] ∧
     (plan invExCfg invExP [(1, 1000)] 4).ddeps 1 = [] ∧
     Ev.load 1 ∈ (run invExCfg invExP [(1, 1000)] 4 (List.replicate 5 chooseAll)).trace := by decide
+
+/-! ## load-or-execute is decided by the cache pre-state; cached tasks hide their dependencies -/
+
+/-- `use_cache` at submit time = `use_cache` at plan time -/
+theorem use_cache_fixed_at_plan_time (cfg : Config) (p : Problem) (store : Store) (fuel : Nat)
+    (sched : List Choice) (t : Tid) (uc : Bool) (h : Ev.submit t uc ∈ (run cfg p store fuel sched).trace) :
+    uc = useCache cfg p store t := by
+  rw [run_trace] at h
+  exact (run_flagTr cfg p store fuel sched).subOK t uc h
+
+/-- a task is loaded only if it was cached beforehand (and the cache is not busted) -/
+theorem load_implies_cached (cfg : Config) (p : Problem) (store : Store) (fuel : Nat)
+    (sched : List Choice) (t : Tid) (h : Ev.load t ∈ (run cfg p store fuel sched).trace) :
+    useCache cfg p store t = true ∧ t ∈ (plan cfg p store fuel).pending := by
+  rw [run_trace] at h
+  exact ⟨(run_flagTr cfg p store fuel sched).loadOK t h,
+    loopHead_ran_planned cfg p store fuel sched t ((mem_ranOf _ _).mpr (Or.inl h))⟩
+
+/-- a task is executed only if it was not cached beforehand (or the cache is busted) -/
+theorem exec_implies_not_cached (cfg : Config) (p : Problem) (store : Store) (fuel : Nat)
+    (sched : List Choice) (t : Tid) (seen : List (Option Val))
+    (h : Ev.exec t seen ∈ (run cfg p store fuel sched).trace) :
+    useCache cfg p store t = false ∧ t ∈ (plan cfg p store fuel).pending := by
+  rw [run_trace] at h
+  exact ⟨(run_flagTr cfg p store fuel sched).execOK t seen h,
+    loopHead_ran_planned cfg p store fuel sched t ((mem_ranOf _ _).mpr (Or.inr ⟨seen, h⟩))⟩
+
+/-- every worker record (load or execution) belongs to a planned task -/
+theorem worker_record_planned (cfg : Config) (p : Problem) (store : Store) (fuel : Nat)
+    (sched : List Choice) (t : Tid) (h : t ∈ ranOf (run cfg p store fuel sched).trace) :
+    t ∈ (plan cfg p store fuel).pending := by
+  rw [run_trace] at h
+  exact loopHead_ran_planned cfg p store fuel sched t h
+
+/-- in a run that returned, a planned task whose worker did not die was loaded iff it was cached
+    beforehand, executed iff it was not (`useCache` = not busted ∧ persisting cache ∧ entry present) -/
+theorem loaded_iff_cached_beforehand (cfg : Config) (p : Problem) (store : Store) (fuel : Nat)
+    (sched : List Choice) (r : List (Tid × Val)) (hret : (run cfg p store fuel sched).status = .returned r)
+    (t : Tid) (ht : t ∈ (plan cfg p store fuel).pending) (hd : diesIn cfg p t = false) :
+    (Ev.load t ∈ (run cfg p store fuel sched).trace ↔ useCache cfg p store t = true) ∧
+    ((∃ seen, Ev.exec t seen ∈ (run cfg p store fuel sched).trace) ↔ useCache cfg p store t = false) := by
+  have hF := run_flagTr cfg p store fuel sched
+  have hY := (returned_all_yielded cfg p store fuel sched r hret t).mp ht
+  have hran := (mem_ranOf _ _).mp (hF.ranAll t (Or.inl hY) hd)
+  rw [run_trace]
+  constructor
+  · refine ⟨hF.loadOK t, fun huc => ?_⟩
+    rcases hran with h | ⟨seen, h⟩
+    · exact h
+    · have := hF.execOK t seen h
+      rw [huc] at this; cases this
+  · refine ⟨fun ⟨seen, h⟩ => hF.execOK t seen h, fun huc => ?_⟩
+    rcases hran with h | h
+    · have := hF.loadOK t h
+      rw [huc] at this; cases this
+    · exact h
+
+/-- reading of `diesIn`: a worker can die only under a process backend -/
+theorem diesIn_spec (cfg : Config) (p : Problem) (t : Tid) :
+    diesIn cfg p t = true ↔ (cfg.backend ≠ .serial ∧ p.dies t = true) := by
+  simp only [diesIn]
+  split <;> simp_all
+
+/-- the work list holds only tasks of needed objects (no hypothesis) -/
+theorem plan_is_needed_closure (cfg : Config) (p : Problem) (store : Store) (fuel : Nat) (t : Tid)
+    (h : t ∈ (plan cfg p store fuel).pending) : ∃ i, NeededObj cfg p store i ∧ p.tidOf i = t :=
+  plan_pending_needed cfg p store fuel t h
+
+/-- and, given acyclicity, consistent objects and enough fuel, all of them -/
+theorem needed_is_planned (cfg : Config) (p : Problem) (store : Store) (fuel : Nat)
+    (hA : Acyclic p) (hI : InstOK p) (hF : FuelOK p fuel) (i : Iid) (h : NeededObj cfg p store i) :
+    p.tidOf i ∈ (plan cfg p store fuel).pending :=
+  needed_planned cfg p store fuel hA hI hF i h
+
+/-- a task none of whose objects is reachable from the requested objects through NOT-cached tasks is
+    left completely alone: not planned, not submitted, not loaded, not executed, not yielded -/
+theorem cached_deps_untouched (cfg : Config) (p : Problem) (store : Store) (fuel : Nat)
+    (sched : List Choice) (t : Tid) (hn : ¬ ∃ i, NeededObj cfg p store i ∧ p.tidOf i = t) :
+    t ∉ (plan cfg p store fuel).pending ∧
+    (∀ uc, Ev.submit t uc ∉ (run cfg p store fuel sched).trace) ∧
+    Ev.load t ∉ (run cfg p store fuel sched).trace ∧
+    (∀ seen, Ev.exec t seen ∉ (run cfg p store fuel sched).trace) ∧
+    (∀ o, Ev.yield t o ∉ (run cfg p store fuel sched).trace) := by
+  have hnp : t ∉ (plan cfg p store fuel).pending := fun h => hn (plan_pending_needed cfg p store fuel t h)
+  refine ⟨hnp, ?_, ?_, ?_, ?_⟩
+  · intro uc h; exact hnp (nothing_outside_plan cfg p store fuel sched t uc h)
+  · intro h; exact hnp (load_implies_cached cfg p store fuel sched t h).2
+  · intro seen h; exact hnp (exec_implies_not_cached cfg p store fuel sched t seen h).2
+  · intro o h
+    obtain ⟨uc, hs⟩ := yielded_was_submitted cfg p store fuel sched t o h
+    exact hnp (nothing_outside_plan cfg p store fuel sched t uc hs)
+
+/-- chain 2 → 1 → 0 with 1 cached beforehand: only 2 is requested -/
+def chainP : Problem where
+  tidOf := fun i => i
+  children := fun i => if i = 2 then [1] else if i = 1 then [0] else []
+  requested := [2]
+  ty := fun _ => 0
+  maxPar := fun _ => none
+  cacheable := fun _ => true
+  fails := fun _ => false
+  dies := fun _ => false
+  behave := fun t vs => some (10 * t + (vs.map (fun o => o.getD 7)).foldl (· + ·) 0)
+
+/-- non-vacuity of `cached_deps_untouched`: 0 is reachable only through the cached task 1 -/
+theorem chainP_zero_not_needed : ¬ ∃ i, NeededObj invExCfg chainP [(1, 77)] i ∧ chainP.tidOf i = 0 := by
+  have key : ∀ i, NeededObj invExCfg chainP [(1, 77)] i → i = 2 ∨ i = 1 := by
+    intro i h
+    induction h with
+    | req hi => left; simpa [chainP] using hi
+    | @dep i c _ huc hc ih =>
+      rcases ih with h | h
+      · subst h; right; simpa [chainP] using hc
+      · subst h
+        have : useCache invExCfg chainP [(1, 77)] (chainP.tidOf 1) = true := by decide
+        rw [this] at huc; cases huc
+  rintro ⟨i, hi, h0⟩
+  have h0' : i = 0 := h0
+  rcases key i hi with h | h <;> (rw [h] at h0'; exact absurd h0' (by decide))
+
+example :
+    (plan invExCfg chainP [(1, 77)] 3).pending = [2, 1] ∧
+    ranOf (run invExCfg chainP [(1, 77)] 3 (List.replicate 3 chooseAll)).trace = [1, 2] ∧
+    Ev.load 1 ∈ (run invExCfg chainP [(1, 77)] 3 (List.replicate 3 chooseAll)).trace ∧
+    Ev.exec 2 [some 77] ∈ (run invExCfg chainP [(1, 77)] 3 (List.replicate 3 chooseAll)).trace ∧
+    submittedOf (run invExCfg chainP [(1, 77)] 3 (List.replicate 3 chooseAll)).trace = [1, 2] ∧
+    (run invExCfg chainP [(1, 77)] 3 (List.replicate 3 chooseAll)).status = .returned [(2, 97)] ∧
+    useCache invExCfg chainP [(1, 77)] 1 = true ∧ useCache invExCfg chainP [(1, 77)] 2 = false := by decide
+
+example : 0 ∉ (plan invExCfg chainP [(1, 77)] 3).pending ∧
+    Ev.load 0 ∉ (run invExCfg chainP [(1, 77)] 3 (List.replicate 3 chooseAll)).trace :=
+  let h := cached_deps_untouched invExCfg chainP [(1, 77)] 3 (List.replicate 3 chooseAll) 0 chainP_zero_not_needed
+  ⟨h.1, h.2.2.1⟩
+
+/-- the hypotheses of `loaded_iff_cached_beforehand` are satisfiable -/
+example : Ev.load 1 ∈ (run invExCfg chainP [(1, 77)] 3 (List.replicate 3 chooseAll)).trace :=
+  (loaded_iff_cached_beforehand invExCfg chainP [(1, 77)] 3 (List.replicate 3 chooseAll) [(2, 97)] (by decide)
+    1 (by decide) (by decide)).1.mpr (by decide)
+
+/-- why `loaded_iff_cached_beforehand` needs "the worker did not die": under a process backend a
+    worker that dies leaves no record at all (task 2 is planned, not cached, delivered as `died`,
+    and neither loaded nor executed); the serial runner has no worker that could die -/
+example :
+    let pr : Problem := { invExP with dies := fun t => t == 2 }
+    (run invExCfg pr [] 4 (List.replicate 5 chooseAll)).status = .returned [(3, 4007), (1, 1000)] ∧
+    2 ∈ (plan invExCfg pr [] 4).pending ∧ useCache invExCfg pr [] 2 = false ∧
+    ranOf (run invExCfg pr [] 4 (List.replicate 5 chooseAll)).trace = [0, 1, 3] ∧
+    ranOf (run { invExCfg with backend := .serial } pr [] 4 (List.replicate 5 chooseAll)).trace = [0, 1, 2, 3] := by
+  decide
 
 end Lt.Props.C03
